@@ -46,7 +46,8 @@ def p_cal(c):
     if c is None:
         return ["none"]
     if isinstance(c, K.PolynomialCalibrator):
-        return ["poly", [[_fr(t.coefficient), int(t.exponent)] for t in c.coefficients]]
+        # a polynomial is the sum of its terms: the order in which they are listed carries no meaning
+        return ["poly", sorted([[_fr(t.coefficient), int(t.exponent)] for t in c.coefficients], key=lambda t: (t[1], t[0]))]
     if isinstance(c, K.SplineCalibrator):
         return ["spline", int(c.order), bool(c.extrapolate), [[_fr(p.raw), _fr(p.calibrated)] for p in c.points]]
     return ["?", repr(c)]
@@ -168,7 +169,7 @@ def n_cal(c):
     if c["k"] == "none":
         return ["none"]
     if c["k"] == "poly":
-        return ["poly", [[_frr(t["c"]), t["e"]] for t in c["terms"]]]
+        return ["poly", sorted([[_frr(t["c"]), t["e"]] for t in c["terms"]], key=lambda t: (t[1], t[0]))]
     pts = sorted([[_frr(p["x"]), _frr(p["y"])] for p in c["pts"]], key=lambda p: Fraction(p[0][0], p[0][1]))
     return ["spline", c["order"], bool(c["extrap"]), pts]
 
